@@ -143,7 +143,7 @@ def _related(u, a, b):
         ta = rt.unalias(ta.data_type)
     if isinstance(tb, dt.Nullable):
         tb = rt.unalias(tb.data_type)
-    return ta is tb or _family(ta) is _family(tb) or ta in _members(tb) or tb in _members(ta)
+    return ta is tb or ta.name == tb.name or _family(ta) is _family(tb) or ta in _members(tb) or tb in _members(ta)
 
 
 def history_task(body, item, tier):
